@@ -3,6 +3,7 @@ package main
 import (
 	"encoding/json"
 	"fmt"
+	"sort"
 
 	tls "github.com/refraction-networking/utls"
 	"github.com/refraction-networking/utls/dicttls"
@@ -268,6 +269,35 @@ func renderJSON(hs []byte) ([]byte, error) {
 	return json.Marshal(doc)
 }
 
+// jsonPair puts the ClientHello orig through the raw-bytes import and through its JSON description and records both
+// resulting wire hellos (a, b) or the errors.
+func jsonPair(ev map[string]any, orig []byte, sni string) {
+	rawSpec, err := (&tls.Fingerprinter{}).FingerprintClientHello(helloRecord(orig))
+	if err != nil {
+		ev["rawerr"] = err.Error()
+	} else if a, es := sendSpec(rawSpec, sni); es != "" {
+		ev["rawerr"] = es
+	} else {
+		ev["a"] = hlib.Ints(a)
+	}
+	doc, err := renderJSON(orig)
+	if err != nil {
+		ev["renderr"] = err.Error()
+		return
+	}
+	ev["json"] = hlib.Ints(doc)
+	jsonSpec, err := (&tls.Fingerprinter{}).UnmarshalJSONClientHello(doc)
+	if err != nil {
+		ev["jsonerr"] = err.Error()
+		return
+	}
+	if b, es := sendSpec(jsonSpec, sni); es != "" {
+		ev["jsonerr"] = es
+	} else {
+		ev["b"] = hlib.Ints(b)
+	}
+}
+
 // sendSpec sends a hello built from spec with HelloCustom + ApplyPreset.
 func sendSpec(spec *tls.ClientHelloSpec, sni string) (hello []byte, errs string) {
 	var aerr error
@@ -357,35 +387,165 @@ func init() {
 				}
 				ev["types"] = ts
 			}
-			// raw-bytes import
-			rawSpec, err := (&tls.Fingerprinter{}).FingerprintClientHello(helloRecord(orig))
-			if err != nil {
-				ev["rawerr"] = err.Error()
-			} else if a, es := sendSpec(rawSpec, req.SNI); es != "" {
-				ev["rawerr"] = es
-			} else {
-				ev["a"] = hlib.Ints(a)
-			}
-			// JSON import
-			doc, err := renderJSON(orig)
-			if err != nil {
-				ev["renderr"] = err.Error()
-				return
-			}
-			ev["json"] = hlib.Ints(doc)
-			jsonSpec, err := (&tls.Fingerprinter{}).UnmarshalJSONClientHello(doc)
-			if err != nil {
-				ev["jsonerr"] = err.Error()
-				return
-			}
-			if b, es := sendSpec(jsonSpec, req.SNI); es != "" {
-				ev["jsonerr"] = es
-			} else {
-				ev["b"] = hlib.Ints(b)
-			}
+			jsonPair(ev, orig, req.SNI)
 		})
 		for _, e := range res {
 			out.Emit(e)
+		}
+		return nil
+	})
+}
+
+// withExt returns the ClientHello hs with one more extension (typ, body) appended after its last extension.
+func withExt(hs []byte, typ uint16, body []byte) ([]byte, error) {
+	p, err := parseHello(hs)
+	if err != nil {
+		return nil, err
+	}
+	s := cryptobyte.String(hs)
+	var sid, suites, comp cryptobyte.String
+	if !s.Skip(4+2+32) || !s.ReadUint8LengthPrefixed(&sid) || !s.ReadUint16LengthPrefixed(&suites) || !s.ReadUint8LengthPrefixed(&comp) {
+		return nil, fmt.Errorf("hello framing")
+	}
+	fixed := hs[4 : len(hs)-len(s)]
+	var b cryptobyte.Builder
+	b.AddUint8(1)
+	b.AddUint24LengthPrefixed(func(b *cryptobyte.Builder) {
+		b.AddBytes(fixed)
+		b.AddUint16LengthPrefixed(func(b *cryptobyte.Builder) {
+			for _, e := range p.exts {
+				b.AddUint16(e.typ)
+				b.AddUint16LengthPrefixed(func(b *cryptobyte.Builder) { b.AddBytes(e.body) })
+			}
+			b.AddUint16(typ)
+			b.AddUint16LengthPrefixed(func(b *cryptobyte.Builder) { b.AddBytes(body) })
+		})
+	})
+	return b.Bytes()
+}
+
+// bodies for JSON-importable extensions that no bundled parrot sends (inputs, well-formed per their RFCs)
+var sampleBodies = map[uint16][]byte{
+	50: {0, 4, 4, 1, 8, 4},             // signature_algorithms_cert: rsa_pkcs1_sha256, rsa_pss_rsae_sha256
+	17: {0, 7, 2, 0, 4, 0, 0, 0, 0},    // status_request_v2: ocsp_multi, empty responder list and extensions
+	24: {1, 0, 2, 1, 2},                // token_binding 1.0: rsa2048_pss, ecdsap256
+}
+
+// jsonexts: {"sni": s, "bases": [ids]} -> one JSON document per extension name the JSON importer knows.
+// The names are those of dicttls.DictExtTypeNameIndexed for which ExtensionFromID yields an extension with an
+// UnmarshalJSON method (pre_shared_key is left out: it needs a session). For each name a ClientHello carrying that
+// extension is taken: a parrot hello that has it and that the JSON format can describe, else the first base hello
+// that can be described with the extension (body as some parrot sends it) appended. Events as jsonhellos, id "ext:<name>";
+// {ev:"JsonExtSkipped", name, why} when no hello with that extension can be put through the raw import.
+func init() {
+	hlib.Register("jsonexts", func(in []byte, out *hlib.Out) error {
+		var req struct {
+			SNI   string
+			Bases []string
+		}
+		if err := json.Unmarshal(in, &req); err != nil {
+			return err
+		}
+		if req.SNI == "" {
+			req.SNI = "example.com"
+		}
+		// harvest: one hello per parrot; bodies by extension type
+		type src struct {
+			hello []byte
+			body  []byte
+		}
+		have := map[uint16][]src{}
+		hellos := map[string][]byte{}
+		for _, id := range hlib.ParrotIDs {
+			h := mustHello(req.SNI, id)
+			if h == nil {
+				continue
+			}
+			hellos[id.Str()] = h
+			if p, err := parseHello(h); err == nil {
+				for _, e := range p.exts {
+					have[e.typ] = append(have[e.typ], src{h, e.body})
+				}
+			}
+		}
+		var bases [][]byte
+		for _, b := range req.Bases {
+			if h := hellos[b]; h != nil {
+				if _, err := renderJSON(h); err == nil {
+					bases = append(bases, h)
+				}
+			}
+		}
+		names := []string{}
+		for n := range dicttls.DictExtTypeNameIndexed {
+			names = append(names, n)
+		}
+		sort.Strings(names)
+		for _, name := range names {
+			typ := dicttls.DictExtTypeNameIndexed[name]
+			ext := tls.ExtensionFromID(typ)
+			if ext == nil || typ == 41 {
+				continue
+			}
+			if _, ok := ext.(tls.TLSExtensionJSON); !ok {
+				continue
+			}
+			if len(have[typ]) == 0 {
+				if b, ok := sampleBodies[typ]; ok { // no parrot sends it: a minimal well-formed body
+					have[typ] = []src{{nil, b}}
+				}
+			}
+			var doc []byte
+			why := "no parrot sends this extension"
+			for _, s := range have[typ] { // a parrot hello that has it and can be described
+				if s.hello == nil {
+					continue
+				}
+				if _, err := renderJSON(s.hello); err == nil {
+					doc = s.hello
+					break
+				}
+			}
+			if doc == nil && len(have[typ]) > 0 {
+				why = "no describable hello could carry it"
+				for _, b := range bases {
+					if p, err := parseHello(b); err == nil {
+						dup := false
+						for _, e := range p.exts {
+							dup = dup || e.typ == typ
+						}
+						if dup {
+							continue
+						}
+						if h, err := withExt(b, typ, have[typ][0].body); err == nil {
+							if _, err := renderJSON(h); err == nil {
+								doc = h
+								break
+							}
+						}
+					}
+				}
+			}
+			if doc == nil {
+				out.Emit(map[string]any{"ev": "JsonExtSkipped", "name": name, "type": int(typ), "why": why})
+				continue
+			}
+			ev := map[string]any{"ev": "JsonHello", "id": "ext:" + name, "k": 0, "orig": hlib.Ints(doc), "types": []int{}, "json": []int{}, "renderr": "", "jsonerr": "", "rawerr": "",
+				"a": []int{}, "b": []int{}, "sni": hlib.Ints([]byte(req.SNI)), "padlen": 0, "exttype": int(typ)}
+			func() {
+				defer func() {
+					if p := recover(); p != nil {
+						ev["rawerr"] = fmt.Sprint("panic: ", p)
+					}
+				}()
+				jsonPair(ev, doc, req.SNI)
+			}()
+			if ev["rawerr"] != "" && ev["jsonerr"] != "" {
+				// neither import accepts this hello: it is no basis for a comparison
+				out.Emit(map[string]any{"ev": "JsonExtSkipped", "name": name, "type": int(typ), "why": "raw import: " + fmt.Sprint(ev["rawerr"])})
+				continue
+			}
+			out.Emit(ev)
 		}
 		return nil
 	})
